@@ -457,6 +457,7 @@ impl Track {
     }
     pub fn write_cc_on_time(&mut self, cc_no: isize, ia: Vec<isize>) {
         let freq = if self.cc_on_time_freq < 1 { 1 } else { self.cc_on_time_freq }; // avoid divide by zero
+        let mut base = self.timepos; // each segment starts where the previous one ended
         for i in 0..ia.len() / 3 {
             let low = ia[i*3+0];
             let high = ia[i*3+1];
@@ -466,14 +467,16 @@ impl Track {
                 if (j % freq) == 0 {
                     let v = (high - low) as f32 * (j as f32 / len as f32) + low as f32;
                     let v = value_range(0, v as isize, 127);
-                    let e = Event::cc(self.timepos + j, self.channel, cc_no, v);
+                    let e = Event::cc(base + j, self.channel, cc_no, v);
                     self.events.push(e);
                 }
             }
+            if len > 0 { base += len; }
         }
     }
     pub fn write_pb_on_time(&mut self, is_big: isize, ia: Vec<isize>, timebase: isize) {
         let freq = if timebase < 32 { 1 } else { timebase / 32 }; // avoid divide by zero
+        let mut base = self.timepos; // each segment starts where the previous one ended
         for i in 0..ia.len() / 3 {
             let mut low = ia[i*3+0];
             let mut high = ia[i*3+1];
@@ -490,10 +493,11 @@ impl Track {
                 if (j % freq) == 0 {
                     let v = (high - low) as f32 * (j as f32 / len as f32) + low as f32;
                     let v = value_range(0, v as isize, 16383); // 14bit
-                    let e = Event::pitch_bend(self.timepos + j, self.channel, v);
+                    let e = Event::pitch_bend(base + j, self.channel, v);
                     self.events.push(e);
                 }
             }
+            if len > 0 { base += len; }
         }
     }
     pub fn remove_cc_on(&mut self, no: isize) {
